@@ -20,6 +20,7 @@ structure SpecSt where
   flightsN : List ((Nat × Nat) × Nat) := []  -- (u, w) ↦ number of advertisement fetches started by `snap`
   awaiting : List (Nat × Nat) := []   -- (u, w): the reply to u's latest fetch of w's advertisement is still outstanding
   text : List (Nat × String) := []    -- the advertisement text each router was last seen to serve
+  ever : List (Nat × Nat) := []       -- every link that has been up at some time in this history
   copy : List ((Nat × Nat) × String) := []  -- (u, w): w's advertisement text when u last started to fetch it
 
 structure St where
@@ -114,6 +115,23 @@ def advFiniteFails (who : String) (got : String) : List SpecFail :=
   | none => if isCrash got then [⟨"no-panic", "crash", s!"{who}: {got}"⟩] else
       [⟨"advert-never-infinite", "unparsable", s!"{who}: unparsable dump {got}"⟩]
 
+/-- the undirected graph with the given (symmetric) directed link list is acyclic: every connected
+    component with k routers has exactly k-1 links, i.e. (number of links) + (number of components) = n -/
+def isForest (n : Nat) (links : List (Nat × Nat)) : Bool :=
+  let und := links.filter fun p => p.1 < p.2
+  -- components by n rounds of label propagation
+  let labels := Spec.iter (fun (lab : List Nat) =>
+      (List.range n).map fun u => und.foldl (fun m p =>
+        if p.1 == u then min m (lab.getD p.2 u) else if p.2 == u then min m (lab.getD p.1 u) else m) (lab.getD u u))
+    n (List.range n)
+  und.length + labels.eraseDups.length == n
+
+/-- fair rounds after which the tables must have converged: the infinity metric in general; on a network
+    whose links (all that were ever up in this history) contain no cycle, split horizon rules out counting
+    to infinity and information travels one hop per round: the number of routers suffices -/
+def roundsBound (sp : SpecSt) : Nat :=
+  if isForest sp.n sp.ever then min Spec.boundRounds sp.n else Spec.boundRounds
+
 def parseNats (l : List String) : Option (List Nat) := l.mapM String.toNat?
 
 def parseField (got : String) (name : String) : Option String :=
@@ -177,7 +195,9 @@ def stepCore (s : St) (op : String) (got : String) : StepResult St :=
         let validM := a < n && b < n && a != b && (s.links.contains (a, b) != up)
         let links' := if up then (a, b) :: (b, a) :: s.links else s.links.filter fun p => p != (a, b) && p != (b, a)
         let spLinks' := if up then (a, b) :: (b, a) :: sp.links else sp.links.filter fun p => p != (a, b) && p != (b, a)
-        let sp' := if got == "ok" then disturb { sp with links := spLinks' } else sp
+        let sp' := if got == "ok" then
+            disturb { sp with links := spLinks', ever := if up && !sp.ever.contains (a, b) then (a, b) :: (b, a) :: sp.ever else sp.ever }
+          else sp
         { st := { s with links := if validM then links' else s.links, sp := sp' },
           expected := some (if validM then "ok" else "skip"), cov := [lk] }
       else if lk == "fetch" then
@@ -294,7 +314,7 @@ def stepCore (s : St) (op : String) (got : String) : StepResult St :=
     let advs : List (Option (List Spec.Obs)) := parts.map fun p => parseAdv ((" ".intercalate ((p.splitOn " ").drop 1)))
     let finiteFails := ((List.range parts.length).zip parts).flatMap fun (i, p) =>
       advFiniteFails s!"r{i}" (" ".intercalate ((p.splitOn " ").drop 1))
-    let converged := staleFree sp && sp.awaiting.isEmpty && sp.rounds ≥ Spec.boundRounds && parts.length == sp.n
+    let converged := staleFree sp && sp.awaiting.isEmpty && sp.rounds ≥ roundsBound sp && parts.length == sp.n
     let t := topoOf sp
     let spFails : List SpecFail :=
       if !converged then [] else
@@ -323,6 +343,7 @@ def stepCore (s : St) (op : String) (got : String) : StepResult St :=
     { st := { s with sp := sp' }, expected := some (dumpAll s.keys s.net),
       spec := finiteFails ++ spFails ++ stableFails ++ detFails,
       cov := (if converged then ["check-converged"] else ["check-early"]) ++
+             (if converged && sp.rounds < Spec.boundRounds then ["check-converged-forest-bound"] else []) ++
              (if converged && sp.stable.isNone then [s!"rounds-to-fixed-point-{sp.lastChange}"] else []) ++
              (if converged && sp.stable.isSome then ["check-stable"] else []) ++
              (if converged && (sp.seen.find? (·.1 == sig)).isSome && sp.stable.isNone then ["check-same-topology-again"] else []) ++
